@@ -198,12 +198,14 @@ def make_ob(v, name, shape, tier):
             return None
         return "load_code(%r, %d): %s (reader at %d/%d) [reference model only: no %d.%d interpreter]" % (data, magic, d, rd.pos, len(data), v[0], v[1])
 
-    return Ob(id="C10.%d%d.%s" % (v[0], v[1], name), prop="C10", params=params, body=body, pre=pre, replay=replay,
+    ob = Ob(id="C10.%d%d.%s" % (v[0], v[1], name), prop="C10", params=params, body=body, pre=pre, replay=replay,
               funcs=FUNCS, region="%s" % name.split(".")[0],
               skeleton="producer %d.%d (magic %d), constant %s = %r" % (v[0], v[1], magic, name, _abbr(shape)),
               bound="%d symbolic payload bytes" % len(params), timeout=60 if tier == "quick" else 200,
               setup=stub_long,
               oracle="R-model marshal_ref" + ("; replay on real marshal.loads of %d.%d" % v if v in REAL else " (no interpreter)"))
+    ob.run_concrete = lambda kw: run(kw, lambda it: bytes(it))
+    return ob
 
 
 def _abbr(shape):
@@ -335,4 +337,63 @@ def generate(tier, seed):
                     name.startswith(("tfloat", "tcomplex", "int32", "interned", "share-(", "bytes1", "uni1"))):
                 continue
             obs.append(make_ob(v, name, shape, tier))
+    # The symbolic long obligations run with LongTypeForPython3 stubbed out (constructing an int subclass realises the
+    # value), so the *kind* of a Python-2 long is not seen there: the replay functions of those obligations (real
+    # wrapper class, real 2.7 marshal as the reference) are run on the corner inputs of each shape as a direct obligation.
+    for v in vs:
+        if v < (3, 0):
+            subset = [o for o in obs if o.id.startswith("C10.%d%d.long" % v) or o.id.startswith("C10.%d%d.share-long" % v)]
+            if subset:
+                obs.append(corner_ob(v, subset))
     return obs
+
+
+def corner_ob(v, subset):
+    def corners(o):
+        lo = dict((n, r[0]) for n, r in o.params)
+        hi = dict((n, r[1]) for n, r in o.params)
+        one = dict((n, min(r[1], r[0] + 1)) for n, r in o.params)
+        return [lo, hi, one]
+
+    def q():
+        n = 0
+        for o in subset:
+            for kw in corners(o):
+                if o.pre is not None and not o.pre(**kw):
+                    continue
+                n += 1
+                d = o.replay(**kw) or kind_of(o, kw)
+                if d:
+                    return "refuted", ("%s: %s" % (o.id, d))[:300], {"obligation": o.id, "kw": kw}, 0, 0.0
+        return "confirmed", "%d corner inputs" % n, None, 0, 0.0
+
+    def kind_of(o, kw):
+        """every int among the constants of a long shape was an 'l' record of a Python-2 file: it must come back as xdis's
+        long wrapper (what CPython 2 loads as `long`), whatever its sign"""
+        import xdis.unmarshal as U
+        saved = U.long
+        U.long = lambda n: U.LongTypeForPython3(n)      # the definition in xdis/unmarshal.py (a worker that ran symbolic long obligations has the stub installed)
+        try:
+            items, co, rd = o.run_concrete(kw)
+        finally:
+            U.long = saved
+
+        def walk(x):
+            if isinstance(x, (tuple, list)):
+                for y in x:
+                    r = walk(y)
+                    if r:
+                        return r
+            elif isinstance(x, int) and not isinstance(x, bool) and type(x).__name__ != "LongTypeForPython3":
+                return "long constant %r of the Python-2 file %r is loaded as a plain %s, CPython 2 loads a long" % (x, bytes(items), type(x).__name__)
+            return None
+        return walk(co.co_consts)
+
+    def replay(obligation, kw):
+        o = next((x for x in subset if x.id == obligation), None)
+        return (o.replay(**kw) or kind_of(o, kw)) if o is not None else None
+
+    return Ob(id="C10.%d%d.long-kind-corners" % v, prop="C10", params=[], body=None, direct=q, replay=replay, funcs=FUNCS,
+              region="%d%d.long" % v, skeleton="Python %d.%d long constants: the real wrapper class on the corner inputs of every long shape" % v,
+              bound="3 corner inputs per shape (concrete)", timeout=120,
+              oracle="R-real: marshal.loads of CPython 2.7 (kind 'long' vs 'int')" if v in REAL else "reference model")
